@@ -259,6 +259,11 @@ def regular_case(pvl, dialect, key):
     col = pvl.collections
     cfg = gen_config(rng, dialect)
     r = rng.random()
+    if r < 0.08:
+        # a module every encoder accepts and has to wrap (long text strings,
+        # long sequences of words and quoted strings)
+        cfg, module = build_case(pvl, dialect, key + "-wrap")
+        return cfg, module, "wrap-heavy", rng.choice(("encode", "dumps"))
     if r < 0.45:
         module, shape = gen_module(rng, dialect, cfg["width"], col).module, "random"
     elif r < 0.9:
